@@ -319,6 +319,19 @@ class Evaluator:
             return v if hit else self.ev(arm)
         if k in ("CallExpr", "CXXMemberCallExpr", "CXXOperatorCallExpr"):
             nm = self.prog.callee_name(f, n)
+            indirect_target = None
+            if k == "CallExpr" and not n.get("callee") and nm not in self.calls:
+                # a call through a function-pointer value: when the pointer folds to a function designator, the call is that function's
+                argids = set(n.get("args", []))
+                cal = [c_ for c_ in n.get("c", []) if c_["id"] not in argids]
+                if cal:
+                    try:
+                        fv = self.ev(cal[0])
+                    except Unknown:
+                        fv = None
+                    if isinstance(fv, tuple) and fv[0] == "fn":
+                        nm = fv[1]
+                        indirect_target = [g_ for g_ in self.prog.functions.values() if g_.qn == nm]
             if nm in self.calls:
                 args = []
                 ob_ = f.strip(f.node(n["obj"])) if (k == "CXXMemberCallExpr" and n.get("obj") is not None) else None
@@ -370,8 +383,10 @@ class Evaluator:
             if n.get("callee") and n["callee"].get("dispatch") == "direct" and n["callee"]["mn"] in self.prog.functions and getattr(self, "inline_static", True):
                 g0 = self.prog.functions[n["callee"]["mn"]]
                 auto = bool(g0.d.get("static")) and g0.kind == "function" and g0 is not f and getattr(self, "_depth", 0) < 4
-            if (nm in inl or auto) and n.get("callee") and n["callee"]["mn"] in self.prog.functions:
-                g = self.prog.functions[n["callee"]["mn"]]
+            if indirect_target and len(indirect_target) == 1 and (nm in inl or (indirect_target[0].d.get("static") and indirect_target[0].kind == "function")):
+                auto = True
+            if (nm in inl or auto) and ((n.get("callee") and n["callee"]["mn"] in self.prog.functions) or indirect_target):
+                g = self.prog.functions[n["callee"]["mn"]] if n.get("callee") else indirect_target[0]
                 if getattr(self, "_depth", 0) > 30:
                     raise Unknown("inlining depth exceeded in %s (unbounded recursion)" % nm)
                 args = []
@@ -423,9 +438,12 @@ class Evaluator:
                 sub.pass_object = getattr(self, "pass_object", False)
                 sub.heap_mode = getattr(self, "heap_mode", False)
                 sub.on_subscript = getattr(self, "on_subscript", None)
+                sub.trace.append(("enter " + str(nm), None, n))
                 sub.run_blocks(g.entry, max_steps=5000)
+                sub.trace.append(("leave " + str(nm), None, n))
                 if getattr(sub, "threw", None) is not None:
                     self.threw = sub.threw
+                    self.trace.extend(sub.trace)
                     raise Thrown(nm, exc=getattr(sub, "threw_type", None))
                 # by-reference parameters: what the callee left in them is the caller's object afterwards
                 for q, a in zip(g.params, f.args(n)):
